@@ -35,16 +35,18 @@ CLAIMS = {
          'position of every exchange of every operation incl. first and reconnect handshake, a packet arriving at deadline - 1 / deadline / deadline + 1 at every position, multi-stall '
          'sequences, read_card_timeout 0..255; completion and virtual elapsed time compared to the millisecond with the model; oracle: never Hang/Panic, elapsed <= budget bound. '
          'Partial (runtime): tokio timers, OS connect.', "DESIGN.md section 6 C10, section 16.3"),
- "C18": ("Coq theorems on the read-card handler for every accumulator and reply: canonical UID function = its specification; listed application with id "
-         "=> Bank; any listed application => Bank or error, never Membership; no application + UID => Membership(canon uid); 0x6C => NoCard. Tie: UID absent / "
-         "0..20 bytes, application lists absent/empty/with and without ids, 0-3 intermediate statuses, all 256 abort codes.", "DESIGN.md section 6, C18"),
+ "C18": ("Coq theorems on the read-card handler for every accumulator and reply: canonical UID function = its specification; an application id in ANY entry of the list "
+         "=> Bank; any application list => Bank or error, never Membership; no list + UID => Membership(canon uid); 0x6C => NoCard; the read-card request on the wire. "
+         "One OPEN known finding (known_findings.json, printed as KNOWN-FINDING): a list that names no application, with a UID, is an error where the property wants the UID "
+         "(C18_refuted_for_idless_lists characterises the class exactly). Tie: UID absent / "
+         "0..20 bytes, application lists absent/empty/with and without ids in every order, 0-3 intermediate statuses, all 256 abort codes; oracle = the property's reading.", "DESIGN.md section 6, C18"),
  "C19": ("Coq: with other transactions open a completed cancel returns the world of its own exchange (no pending query, no end-of-day); when the map "
          "becomes empty the call IS the clean-up chain (end_of_day: pending query, reversal, end-of-day); 0xA0 tolerated, other refusals reported; "
          "end_of_day leaves the map empty. Tie: histories to depth 3 (4) x dangling receipt present / absent / bare abort x end-of-day outcomes "
          "(completion, 0xA0, sampled / all other codes) with byte-exact expected request chains.", "DESIGN.md section 6, C19"),
  "C20": ("Coq theorem for ALL codes c and every exchange with an abort arm (reservation, read card, end-of-day, partial reversal, pre-auth reversal, "
-         "initialisation, set-terminal-id, system info): the handler answers Err identifying c, with exactly the three documented translations; an abort "
-         "ends the loop. Tie: all 256 codes x 11 operation/sub-exchange placements x position behind 0-2 intermediate statuses on the real client.",
+         "initialisation, set-terminal-id, system info, and the query for a dangling pre-authorisation whose answer carries 0xB8): the handler answers Err identifying c, with exactly the three documented translations; an abort "
+         "ends the loop. Tie: all 256 codes x 14 operation/sub-exchange placements x position behind 0-2 intermediate statuses on the real client.",
          "DESIGN.md section 6, C20"),
  "C12": ('Coq: the C01 inverse theorem, the C02 totality / termination / allocation theorems and the C13 / C14 theorems all quantify over EVERY layout over the attribute grammar '
          '(C12_generated_pair_inverse_commands / _plain: every value of the class `canon`), with kernel-evaluated examples on a layout the shipped packets never use. Tie: random struct '
@@ -76,7 +78,7 @@ CLAIMS = {
  "C13": ('Coq: theorems about the decode loop the derive macro generates, for every field list and every field decoder (any permutation of pairwise-distinct tagged groups decodes to '
          'the same value, a second group for a seen tag is DuplicateTag of that tag, all missing mandatory tags are named sorted, an unknown tag ends the loop handing back itself and what '
          'follows), INSTANTIATED for the decidable class `canon_anyorder`: for every layout and value of the class, every permutation of the tagged groups decodes to that value, also inside '
-         'an APDU with any suffix (canon_anyorder_sound, canon_cmd_anyorder); every shipped layout with tagged fields is inside the class. Tie: all permutations up to 5/6 present groups '
+         'an APDU with any suffix (canon_anyorder_sound, canon_cmd_anyorder); every shipped layout with tagged fields is inside the class; for the class also: a second copy of any present group is rejected naming its tag, removing any subset names exactly the absent mandatory tags (canon_duplicate_rejected, canon_missing_named). Tie: all permutations up to 5/6 present groups '
          '(sampled above), a duplicate at every position, every removal subset up to 3, one- and two-byte foreign tags at every group boundary, on all shipped types; model vs '
          'implementation plus an oracle computed from the layout.', "DESIGN.md section 6 C13, section 16.3"),
  "C01": ('Coq, FULL: for EVERY layout (any field list over the attribute grammar) and EVERY value of the decidable class `canon` (CanonClass.v: positional before tagged, '
